@@ -11,6 +11,13 @@ def spec(tier):
         layouts.update({"2op_2seg_first": [[0, 1], [2]], "3op": [[0], [1], [2]], "2op_2seg_last": [[0], [1, 2]],
                         "2op_2x2": [[0, 1], [2, 3]], "4op": [[0], [1], [2], [3]]})
     RMAX = 65 if th else 45
+    # assigned order: independent operators / two chains (0->2, 1->3) assigned in an order that differs from the order of
+    # creation and of DAG iteration; the container runs them in the assigned order (OOM tick, completed prefix / failed suffix)
+    osym = dict(alloc=I(1, 6), d0=I(0, 2), m0=I(0, 7), d1=I(0, 2), m1=I(0, 7), m2=I(0, 7))
+    for nm, lay, perm, ch in (("rev2", [[0], [1]], [1, 0], False), ("rot3", [[0], [1], [2]], [2, 0, 1], False),
+                              ("chains", [[0], [1], [2], [1]], [0, 2, 1, 3], True)) + ((("chains_b", [[0], [1], [2], [0]], [1, 3, 0, 2], True),) if th else ()):
+        obs.append(CH(name=f"run_assigned_order_{nm}", harness="c05.container_run", sym=osym if len(lay) > 2 else {k: v for k, v in osym.items() if k != "m2"},
+                      fixed=dict(layout=lay, perm=perm, chains=ch, d2=1), timeout=900))
     for name, lay in layouts.items():
         nslots = max(max(op) for op in lay) + 1
         # (a) fixed-memory segments with symbolic durations (incl. 0 ticks) and memory
